@@ -158,6 +158,7 @@ let () =
         let inl = inline p in
         "{\"r\":\"ok\",\"inline\":" ^ (match inl with Ok _ -> "\"ok\"" | Err m -> jstr (string_of_cl m))
         ^ ",\"scoped\":" ^ (match inl with Ok q -> b (well_scoped (as_name perf) q) | Err _ -> "null")
+        ^ ",\"events\":" ^ (match inl with Ok q -> b (events_ok (as_name perf) q) | Err _ -> "null")
         ^ ",\"meaning\":" ^ (match inl with Ok q -> (match cfg_of_prog (as_name perf) q with Ok _ -> "true" | Err _ -> "false") | Err _ -> "false")
         ^ ",\"unknown\":" ^ b (program_has (unknown_macro ms) p)
         ^ ",\"few\":" ^ b (program_has (too_few_args ms) p)
